@@ -209,6 +209,12 @@ func (w *World) lockInfo() *lockInfo {
 			for _, r := range *mc.Referrers() {
 				if c, ok := r.(ssa.CallInstruction); ok {
 					if cal := c.Common().StaticCallee(); cal != nil && !w.IsMod[cal] {
+						if _, isCall := c.(*ssa.Call); isCall && syncCallback(cal) {
+							// (*sync.Once).Do(f) runs f on the calling goroutine before it returns:
+							// the call site is f's caller, with the locks held there
+							li.callers[fn] = append(li.callers[fn], c)
+							continue
+						}
 						li.roots[fn] = true
 					}
 				}
@@ -868,4 +874,14 @@ func (w *World) chanClass(v ssa.Value) string {
 		}
 	}
 	return w.key(v)
+}
+
+// syncCallback: library functions that run their function argument synchronously, on the
+// calling goroutine, before returning.
+func syncCallback(cal *ssa.Function) bool {
+	switch cal.String() {
+	case "(*sync.Once).Do":
+		return true
+	}
+	return false
 }
